@@ -339,6 +339,25 @@ def context_of(evs, pos, rule, variant, mis, script, asan=False, small=False):
     return ("site=%s %s" % (site if rule not in ("StrayAccess", "Crash") else "?", what)).strip()
 
 
+def hang_repeats(r, evs, hlines, line, workdir):
+    """A per-history alarm fired. The alarm is wall-clock time, so a starved machine can fire it: the history is run
+    again alone, three times; only a hang that repeats is reported (as a broken check: C17 judges shapes and bytes)."""
+    hev, pos = history_of(evs, line)
+    hid = hev[0].get("id", -1)
+    if not (0 <= hid < len(hlines)):
+        return True
+    one = os.path.join(workdir, "hang_%d_%d.txt" % (os.getpid(), line))
+    with open(one, "w") as f:
+        f.write("0 " + hlines[hid].split(" ", 1)[1] + "\n")
+    exe = os.path.join(workdir, r["variant"] + ("_asan" if r["asan"] else ""), "simcam_cfg")
+    env = {"ASAN_OPTIONS": "detect_leaks=0:exitcode=23:allocator_may_return_null=1:max_malloc_fill_size=0"} if r["asan"] else {}
+    for k in range(3):
+        rc, _ = run([exe, one, one + ".ndjson", "0", str(r["mis"]), "60"], timeout=200, env=env, stderr=subprocess.DEVNULL)
+        if rc == 41:
+            return True
+    return False
+
+
 def judge(chk, runs, workdir):
     """runs: list of dict(trace, hfile, variant, asan, mis, label). Validates all traces, reports refusals."""
     def one(r):
@@ -361,6 +380,10 @@ def judge(chk, runs, workdir):
         hlines = open(r["hfile"]).read().splitlines()
         for rule, line in v["bad"]:
             counts[rule] = counts.get(rule, 0) + 1
+            if rule == "HarnessHang" and not hang_repeats(r, evs, hlines, line, workdir):
+                counts["HarnessHang (not repeated by 3 re-runs of the history alone: machine load, not judged)"] = \
+                    counts.pop(rule, 1)
+                continue
             if rule in HARNESS_RULES:
                 raise Broken("harness-level refusal %s at %s:%d" % (rule, r["trace"], line))
             if rule not in PROP_RULES:
